@@ -53,11 +53,11 @@ end Gq
 def fnv1a (m : Bytes) : UInt64 :=
   m.foldl (fun h b => (h ^^^ b.toUInt64) * 0x100000001b3) 0xcbf29ce484222325
 
-def natToLE : Nat → Nat → Bytes
+def toyNatToLE : Nat → Nat → Bytes
   | 0, _ => []
-  | len + 1, n => UInt8.ofNat (n % 256) :: natToLE len (n / 256)
+  | len + 1, n => UInt8.ofNat (n % 256) :: toyNatToLE len (n / 256)
 
-def natToBE (len n : Nat) : Bytes := (natToLE len n).reverse
+def toyNatToBE (len n : Nat) : Bytes := (toyNatToLE len n).reverse
 
 def beNat (b : Bytes) : Nat := leNat b.reverse
 
@@ -68,10 +68,10 @@ def toyHash64 (ctx : Bytes) (tag : UInt8) (m : Bytes) : Nat :=
 /-- The toy `Base`: `q` prime, generator `g`, `be` selects big-endian encodings. -/
 def toyBase (q g : Nat) (be : Bool) (name : String) : Base (Fq q) (Gq q) :=
   let ctx := strBytes name
-  let enc : Nat → Bytes := fun n => if be then natToBE 4 n else natToLE 4 n
+  let enc : Nat → Bytes := fun n => if be then toyNatToBE 4 n else toyNatToLE 4 n
   let dec : Bytes → Nat := fun b => if be then beNat b else leNat b
   let hs : UInt8 → Bytes → Fq q := fun tag m => ⟨toyHash64 ctx tag m % q⟩
-  let hb : UInt8 → Bytes → Bytes := fun tag m => natToLE 8 (toyHash64 ctx tag m)
+  let hb : UInt8 → Bytes → Bytes := fun tag m => toyNatToLE 8 (toyHash64 ctx tag m)
   { ID := ctx
     G := ⟨g⟩
     cofactor := ⟨1⟩
@@ -86,7 +86,7 @@ def toyBase (q g : Nat) (be : Bool) (name : String) : Base (Fq q) (Gq q) :=
     encScalar := fun s => enc s.val
     decScalar := fun b => if b.length = 4 ∧ dec b < q then some ⟨dec b⟩ else none
     scalarLen := 4
-    leBytes := fun s => natToLE 4 s.val
+    leBytes := fun s => toyNatToLE 4 s.val
     encElem := fun e => if e.val = 0 then none else some (enc e.val)
     decElem := fun b =>
       if b.length = 4 ∧ dec b < q then
